@@ -227,6 +227,8 @@ func (g *Gateway) handleLegacyProtocol(w http.ResponseWriter, r *http.Request, t
 			handler := NewProcessor(g, t)
 			RegisterTunnel(t, handler)
 			defer RemoveTunnel(t)
+			// the tunnel ends with the packet loop: close the outbound channel too
+			defer t.transportOut.Close()
 			handler.Process(r.Context())
 		}
 	}
